@@ -565,7 +565,20 @@ func c09ConnWriters(c *Ctx) {
 			}
 		}
 	}
-	c.Floor(rule, 2, "WSPKT.WritePacket, LegacyPKT.WritePacket")
+	// the transports' WritePacket itself is invoked only by Tunnel.Write (which holds the write mutex)
+	for _, f := range c.allFirstPartyFuncs() {
+		if f.Pkg == nil || f.Pkg.Pkg.Path() != protoPkg || !c.Reachable()[f] {
+			continue // the gateway's serving code only (client.go is the client side of the protocol)
+		}
+		for _, ci := range callsIn(f) {
+			if ci.Common().IsInvoke() && ci.Common().Method.Name() == "WritePacket" {
+				n++
+				sf := shortFn(f)
+				c.Check(sf == "(*cmd/rdpgw/protocol.Tunnel).Write", rule, "WritePacket in "+sf, ci.Pos(), "packets are written through Tunnel.Write only", "a packet is written with Transport.WritePacket outside Tunnel.Write: it is not serialised with the relay goroutine's writes on the same client connection (on websocket both legs are one connection)")
+			}
+		}
+	}
+	c.Floor(rule, 3, "WSPKT.WritePacket, LegacyPKT.WritePacket, Tunnel.Write")
 	_ = n
 }
 
